@@ -450,7 +450,8 @@ func ruleCheckKeyShape(r *core.Report, c *chanSlots, ruleID string) {
 			continue
 		}
 		for _, v := range core.ReturnValues(ret, 0) {
-			if core.IsNilConst(v) {
+			// provably non-nil, not merely "not the nil constant" (errors.Wrapf(nil, ...) is nil)
+			if !nnShared(p).At(v, ret) {
 				ok = false
 			}
 		}
